@@ -239,8 +239,12 @@ Definition fkey (b : Z) : Z := if two63 <=? b then - fmag b else fmag b.
 Definition flt (a b : Z) : bool := negb (fnan a) && negb (fnan b) && (fkey a <? fkey b).
 Definition feq (a b : Z) : bool := negb (fnan a) && negb (fnan b) && (fkey a =? fkey b).
 Definition fis_zero (a : Z) : bool := fmag a =? 0.
+(* putZeroThreshold / putCustomBound store -0 as +0; every other pattern is stored exactly *)
+Definition fnorm (a : Z) : Z := if fis_zero a then 0 else a.
 Definition stale_nan : Z := 9218868437227405314.                      (* 0x7ff0000000000002 *)
 Definition is_stale (sum : Z) : bool := sum =? stale_nan.
+
+Definition custom_schema : Z := -53.
 
 (* ---------- histograms ---------- *)
 Inductive kind := KInt | KFloat.
@@ -266,7 +270,6 @@ Fixpoint prefix_sums (acc : Z) (l : list Z) : list Z :=
 Definition abs_counts (k : kind) (l : list Z) : list Z :=
   match k with KInt => prefix_sums 0 l | KFloat => l end.
 
-Definition custom_schema : Z := -53.
 Fixpoint bounds_match (a b : list Z) : bool :=
   match a, b with
   | [], [] => true
@@ -297,7 +300,9 @@ Definition append_raw (c : chunk) (t : Z) (h0 : hist) : chunk :=
   let s := mkS t (h_count h) (h_zcount h) (h_sum h) (h_pb h) (h_nb h) in
   match c_samples c with
   | [] =>
-      mkC (c_gauge c) (h_schema h) (h_zt h) (h_custom h) (h_ps h) (h_ns h) [s]
+      mkC (c_gauge c) (h_schema h) (fnorm (h_zt h))
+          (if h_schema h =? custom_schema then map fnorm (h_custom h) else [])
+          (h_ps h) (h_ns h) [s]
           (h_count h) (h_zcount h) (h_sum h)
           (copy_into (zeros (count_spans (h_ps h))) (h_pb h))
           (copy_into (zeros (count_spans (h_ns h))) (h_nb h))
